@@ -48,8 +48,8 @@ theorem clustersOf_cases (d : Dir) (sc : Arr) (d1 : Dir) (h : clustersOf d = .ok
     · cases h
 
 /-- a successful `loadAny` is a successful `load` with the same view and directory, and has at least one spike -/
-theorem loadAny_ok (inv : Arr → Arr) (bad : List String) (d : Dir) (v : View) (d' : Dir)
-    (h : loadAny inv bad d = (.ok v, d')) : load inv d = .ok (v, d') ∧ v.spikeTemplates.data ≠ [] := by
+theorem loadAny_ok (inv : Arr → Arr) {one : Cell} (bad : List String) (d : Dir) (v : View) (d' : Dir)
+    (h : loadAny inv bad d one = (.ok v, d')) : load inv d one = .ok (v, d') ∧ v.spikeTemplates.data ≠ [] := by
   unfold loadAny at h
   split at h
   · cases h
@@ -129,7 +129,7 @@ theorem lookup_wmi_append (d : Dir) (e1 : Dir)
 /-- the directory after ANY outcome of the load is the original one plus, at the end, possibly the cluster copy (only
 when no cluster file existed; a copy of the winning spike-template file) and possibly an inverse whitening matrix (only
 when none existed) -/
-theorem loadAny_added (inv : Arr → Arr) (bad : List String) (d : Dir) : Added d (loadAny inv bad d).2 := by
+theorem loadAny_added (inv : Arr → Arr) {one : Cell} (bad : List String) (d : Dir) : Added d (loadAny inv bad d one).2 := by
   unfold loadAny
   split
   · exact added_refl d
@@ -221,9 +221,9 @@ theorem frame_of_added (d d' : Dir) (h : Added d d') :
   · simp only [List.length_append]
     rcases he1 with rfl | ⟨hn, f, a, -, -, rfl⟩ <;> rcases he2 with rfl | ⟨hw, w, rfl⟩ <;> simp [*] <;> split <;> omega
 
-theorem loadAny_early_unchanged (inv : Arr → Arr) (bad : List String) (d : Dir) (e : AnyErr)
-    (h : (loadAny inv bad d).1 = .error e) (he : e.early = true) : (loadAny inv bad d).2 = d := by
-  generalize hr : loadAny inv bad d = r at h ⊢
+theorem loadAny_early_unchanged (inv : Arr → Arr) {one : Cell} (bad : List String) (d : Dir) (e : AnyErr)
+    (h : (loadAny inv bad d one).1 = .error e) (he : e.early = true) : (loadAny inv bad d one).2 = d := by
+  generalize hr : loadAny inv bad d one = r at h ⊢
   unfold loadAny at hr
   dsimp only at hr
   repeat' first
@@ -243,6 +243,75 @@ theorem uniqueIds_spec (a : Arr) :
   rw [uniqueIds, h2 v]
   simp [List.mem_map]
 
+/-- on non-negative cells `uniqueIds` is `np.unique`, over the integers -/
+theorem uniqueIds_idSet (a : Arr) (hnn : ∀ c ∈ a.data, 0 ≤ cellInt c) : IsIdSetOf (uniqueIds a) a.data := by
+  obtain ⟨h1, h2⟩ := uniqueIds_spec a
+  refine ⟨h1, fun z => ⟨?_, ?_⟩⟩
+  · rintro ⟨v, hv, rfl⟩
+    exact (h2 v).1 hv
+  · rintro ⟨c, hc, rfl⟩
+    have h0 := hnn c hc
+    refine ⟨(cellInt c).toNat, (h2 _).2 ⟨c, hc, ?_⟩, ?_⟩ <;> omega
+
+theorem loadFull_ids {β : Type} (inv : Arr → Arr) (rate : Rat) (tden ncd : Nat) (one : Cell)
+    (raw : Option (List (List (List β)))) (d : Dir) (fv : FullView β) (d' : Dir)
+    (h : loadFull inv rate tden ncd one raw d = .ok (fv, d'))
+    (hnn : ∀ c ∈ fv.base.spikeTemplates.data ++ fv.base.spikeClusters.data ++ fv.channelProbes.data, 0 ≤ cellInt c) :
+    IsIdSetOf fv.base.templateIds fv.base.spikeTemplates.data ∧
+    IsIdSetOf fv.base.clusterIds fv.base.spikeClusters.data ∧
+    fv.channelProbes = fv.base.channelProbes.getD (zerosVec (fv.base.channelMap.shape.headD 0)) ∧
+    IsIdSetOf fv.probes fv.channelProbes.data := by
+  obtain ⟨-, -, -, hnc, -, -, -, -, -, -, hp, -⟩ := loadFull_nf inv rate tden ncd one raw d fv d' h
+  rw [hnc] at hp
+  exact ⟨uniqueIds_idSet _ fun c hc => hnn c (by simp [hc]), uniqueIds_idSet _ fun c hc => hnn c (by simp [hc]), hp,
+    uniqueIds_idSet _ fun c hc => hnn c (by simp [hc])⟩
+
+/-! ### the inverse whitening matrix with its default -/
+
+theorem loadFull_wmi_eq {β : Type} (inv : Arr → Arr) (rate : Rat) (tden ncd : Nat) (one : Cell)
+    (raw : Option (List (List (List β)))) (d : Dir) (fv : FullView β) (d' : Dir)
+    (h : loadFull inv rate tden ncd one raw d = .ok (fv, d')) :
+    fv.wmi = fv.base.wmi.getD (inv (fv.base.wm.getD (eye one (fv.base.channelMap.shape.headD 0)))) := by
+  unfold loadFull at h
+  simp only [bind, Except.bind, pure, Except.pure, throw, throwThe, MonadExceptOf.throw] at h
+  cases hl : load inv d one with
+  | error e => simp [hl] at h
+  | ok r =>
+    obtain ⟨v, dd⟩ := r
+    simp only [hl] at h
+    split at h
+    · cases h
+    · split at h
+      · cases h
+      split at h
+      · cases h
+      · injection h with h
+        injection h with h1 h2
+        subst h1 h2
+        rfl
+
+/-- the inverse whitening matrix of a loaded model: the stored file (at least 2-D, squeezed, scrubbed), or — no file —
+what `inv` returned on the whitening matrix the model shows (the stored one or the identity), which is also what the
+loader wrote to `whitening_mat_inv.npy` -/
+theorem loadFull_wmi {β : Type} (inv : Arr → Arr) (rate : Rat) (tden ncd : Nat) (one : Cell)
+    (raw : Option (List (List (List β)))) (d : Dir) (fv : FullView β) (d' : Dir)
+    (h : loadFull inv rate tden ncd one raw d = .ok (fv, d')) :
+    (∀ a, d.lookup "whitening_mat_inv.npy" = some a →
+      fv.wmi = atleast 2 (squeeze (scrub a)) ∧ d'.lookup "whitening_mat_inv.npy" = some a) ∧
+    (d.lookup "whitening_mat_inv.npy" = none →
+      fv.wmi = inv fv.wm ∧ d'.lookup "whitening_mat_inv.npy" = some (inv fv.wm)) := by
+  have he := loadFull_wmi_eq inv rate tden ncd one raw d fv d' h
+  obtain ⟨hb, -, -, hnc, -, -, -, -, -, -, -, hwm, -⟩ := loadFull_nf inv rate tden ncd one raw d fv d' h
+  rw [hnc] at hwm
+  rw [← hwm] at he
+  refine ⟨fun a ha => ?_, fun hn => ?_⟩
+  · rw [he, wmi_stored inv d fv.base d' hb a ha]
+    exact ⟨rfl, (load_frame inv d fv.base d' hb).1 _ a ha⟩
+  · obtain ⟨h1, h2⟩ := wmi_default inv d fv.base d' hb hn
+    rw [← hwm] at h2
+    rw [he, h1]
+    exact ⟨rfl, h2⟩
+
 /-! ### duration without raw data -/
 
 theorem loadFull_duration_last {β : Type} (inv : Arr → Arr) (rate : Rat) (tden ncd : Nat) (one : Cell)
@@ -256,7 +325,7 @@ theorem loadFull_duration_last {β : Type} (inv : Arr → Arr) (rate : Rat) (tde
 theorem loadAny_nonempty_times {β : Type} (inv : Arr → Arr) (bad : List String) (rate : Rat) (tden ncd : Nat) (one : Cell)
     (raw : Option (List (List (List β)))) (d : Dir) (fv : FullView β) (d' : Dir)
     (h : loadFull inv rate tden ncd one raw d = .ok (fv, d'))
-    (hany : loadAny inv bad d = (.ok fv.base, d'))
+    (hany : loadAny inv bad d one = (.ok fv.base, d'))
     (hwf : fv.base.times.arr.data.length = fv.base.spikeTemplates.data.length) : fv.spikeTimes ≠ [] := by
   have hne := (loadAny_ok inv bad d fv.base d' hany).2
   obtain ⟨-, -, -, -, -, -, -, ht, -⟩ := loadFull_nf inv rate tden ncd one raw d fv d' h
